@@ -19,7 +19,8 @@ from fractions import Fraction
 RTOL = 1e-9
 _U = {}
 
-REAL_UNITS = {"L": ["m", "km", "cm", "inch"], "T": ["s", "ms", "min", "hr"], "iL": ["1/m", "1/km", "1/cm", "1/inch"], "iT": ["Hz", "kHz", "1/min", "MHz"]}
+REAL_UNITS = {"L": ["m", "km", "cm", "inch"], "T": ["s", "ms", "min", "hr"], "iL": ["1/m", "1/km", "1/cm", "1/inch"], "iT": ["Hz", "kHz", "1/min", "MHz"],
+              "Th": ["K", "degC", "degF", "R"]}
 # registries in which one spelling has different values (MC_C07: QK, RegCase, RegDCase)
 REG_SYMBOL = {1: {"L": "ql", "T": "qt"}, 2: {"L": "ql", "T": "qt"}, 3: {"L": "ft", "T": "min"}, 4: {"L": "ft", "T": "min"}}
 REG_DYADIC = {1: {"ql": 3, "qt": -2}, 2: {"ql": 5, "qt": 1}}
@@ -86,6 +87,7 @@ def setup(common=None):
     _U["regs"] = regs
     _U["lensym"] = dimensions.length
     _U["timesym"] = dimensions.time
+    _U["tempsym"] = dimensions.temperature
 
 
 # ------------------------------------------------------------------ catalogue
@@ -168,7 +170,7 @@ class Ctx:
         if self.dt == "i8":
             a = a * 2.0
         if self.real:
-            stored = a / float(u.base_value)
+            stored = a / float(u.base_value) + float(getattr(u, "base_offset", 0.0) or 0.0)  # offset units (degC: -273.15): reading of the same temperature
         else:
             k = int(self.case["_k"][i])
             stored = a * (2.0 ** (-k))
@@ -566,7 +568,7 @@ def _dims(units):
         if getattr(sym, "is_number", False):
             continue
         h = _half(e) if getattr(e, "is_number", False) else None
-        if sym == _U["lensym"] and h is not None:
+        if sym in (_U["lensym"], _U["tempsym"]) and h is not None:  # temperature shares the first slot (never mixed with length)
             l2 = h
         elif sym == _U["timesym"] and h is not None:
             t2 = h
@@ -606,7 +608,7 @@ def _phys(x):
     if isinstance(x, _U["ua"]):
         a = np.asarray(x)
         a = a.astype(complex) if a.dtype.kind == "c" else a.astype(float)
-        return a * float(x.units.base_value)
+        return (a - float(getattr(x.units, "base_offset", 0.0) or 0.0)) * float(x.units.base_value)  # absolute value (K for temperatures)
     a = np.asarray(x)
     return a.astype(complex) if a.dtype.kind == "c" else a.astype(float)
 
@@ -659,6 +661,7 @@ def _run(case, which):
     units = [_unit_reg(u[0], int(j)) if which == "u" and int(j) else _unit(u, real) for u, j in zip(us, rg)]
     c = Ctx(dict(case, _k=[int(u[1]) for u in us]), units)
     t = case["t"]
+    rawbuf = False
     import warnings
 
     with warnings.catch_warnings():
@@ -667,13 +670,21 @@ def _run(case, which):
             if t in ("out", "ax0out", "lstout", "mmout", "axmout"):
                 # dry run without out= to learn the result's shape and dtype
                 c0 = Ctx(dict(case, t={"out": "p", "ax0out": "ax0", "lstout": "lst", "mmout": "mm", "axmout": "axm"}[t], _k=c.case["_k"]), units)
-                r0 = np.asarray(_call(c0))
+                r0x = _call(c0)
+                r0 = np.asarray(r0x)
                 alt = [_unit([u[0], 1 if not real else 2], real) for u in us]  # the same buffer unit in both runs
                 ou = _out_unit(case, alt)
                 dt = r0.dtype if r0.dtype.kind in "fc" else np.float64
-                c.out = _U["ua"](np.zeros(r0.shape, dtype=dt), ou)
+                kind = case.get("ok", "u")
+                if kind == "b":
+                    c.out = np.zeros(r0.shape, dtype=dt)  # the caller's plain buffer
+                elif kind == "r" and isinstance(r0x, _U["ua"]):
+                    c.out = _U["ua"](np.zeros(r0.shape, dtype=dt), r0x.units)  # already in the unit of the result
+                else:
+                    c.out = _U["ua"](np.zeros(r0.shape, dtype=dt), ou)
                 r = _call(c)
                 outs = _flatten(r) + [c.out]
+                rawbuf = kind == "b"
             else:
                 r = _call(c)
                 outs = _flatten(r)
@@ -688,7 +699,10 @@ def _run(case, which):
             return {"k": "raise", "exc": type(e).__name__, "outs": []}, []
     if len(outs) > 12:
         outs = outs[:12]
-    return {"k": "ok", "exc": "", "outs": [_proj(x) for x in outs]}, outs
+    pr = [_proj(x) for x in outs]
+    if rawbuf and type(outs[-1]) is np.ndarray:
+        pr[-1] = dict(pr[-1], kind="rawbuf")
+    return {"k": "ok", "exc": "", "outs": pr}, outs
 
 
 def observe(case):
